@@ -279,14 +279,35 @@ def examine(case, path, pq=None, ctx=None):
     Returns the list of property failures [(cls, detail)]."""
     import fastparquet
     from fastparquet import ParquetFile, api
+    import copy
     fails = []
+    # the user-facing views are taken as a SHORT CALL SEQUENCE ON ONE HANDLE: statistics, sorted_partitioned_columns without and
+    # with a filter that prunes some row groups (chosen on a separate handle), in both orders, and both again afterwards; every
+    # result is compared with the values recomputed from the stored chunks, the unfiltered results before/after with each other
     pf = ParquetFile(path)
-    ust = pf.statistics
-    try:
-        sorted_real = api.sorted_partitioned_columns(pf)
-        sorted_err = None
-    except Exception as e:       # noqa
-        sorted_real, sorted_err = {}, "%s: %s" % (type(e).__name__, e)
+    filt, fidx = _pick_filter(path)
+    order = (case["n"] + len(case["cols"])) % 2
+    stat_views, sorted_views = [], []
+
+    def call_sorted(label, f=None, sub=None):
+        try:
+            r = api.sorted_partitioned_columns(pf, filters=f) if f else api.sorted_partitioned_columns(pf)
+            err = None
+        except Exception as e:       # noqa
+            r, err = {}, "%s: %s" % (type(e).__name__, e)
+        sorted_views.append({"label": label, "res": copy.deepcopy(r), "err": err, "idx": sub, "filter": f})
+    if order == 1 and filt:
+        call_sorted("sorted_partitioned_columns(filters) as the first call", filt, fidx)
+    stat_views.append(("statistics", copy.deepcopy(pf.statistics)))
+    call_sorted("sorted_partitioned_columns()")
+    if filt:
+        call_sorted("sorted_partitioned_columns(filters)", filt, fidx)
+        stat_views.append(("statistics after sorted_partitioned_columns(filters)", copy.deepcopy(pf.statistics)))
+        call_sorted("sorted_partitioned_columns() after sorted_partitioned_columns(filters)")
+    if ctx is not None:
+        ctx.count("call sequence", ("filtered call first" if order == 1 else "unfiltered call first") if filt else "no pruning filter available")
+    ust = stat_views[0][1]
+    sorted_err = next((v["err"] for v in sorted_views if v["err"]), None)
     specs = {c["name"]: c for c in case["cols"]}
     o = case["opts"]
     files = {}
@@ -335,25 +356,39 @@ def examine(case, path, pq=None, ctx=None):
                     fails.append(({**cls0, "component": "write_column", "what": what},
                                   {**info, "detail": "%s raw=%s decodes to %r, stored chunk's %s is %r (%d ordered values, %d pages)" % (
                                       what, S_bytes(raw).hex(), got, what, e_phys, len(ordv), len(pages))}))
-            # user view
+            # user view: every snapshot of pf.statistics taken during the call sequence
+            want_l = {}
             for what, raw in (("min", raw_min), ("max", raw_max)):
-                ul = ust[what].get(name)
-                if ul is None or len(ul) != nrg:
-                    continue                     # api.statistics collapses a column to [None] when any row group lacks the value
-                u = S.user_canon(ul[gi])
-                want = None if (raw is None or exp[what] is None) else S.logical(cmd.type, se, exp[what])
-                if raw is not None and exp[what] is not None and not S.same_logical(u, want):
-                    fails.append(({**cls0, "component": "statistics", "what": "user-" + what},
-                                  {**info, "detail": "ParquetFile.statistics %s = %r (%r), stored chunk's %s is %r" % (what, ul[gi], u, what, want)}))
-                if raw is None and u is not None:
-                    fails.append(({**cls0, "component": "statistics", "what": "user-" + what + "-invented"},
-                                  {**info, "detail": "ParquetFile.statistics %s = %r but the chunk carries none" % (what, ul[gi])}))
-            un = ust["null_count"].get(name)
-            if un is not None and len(un) == nrg and raw_nulls is not None and un[gi] != exp_nulls:
-                fails.append(({**cls0, "component": "statistics", "what": "user-null_count"},
-                              {**info, "detail": "ParquetFile.statistics null_count = %r, stored chunk has %d" % (un[gi], exp_nulls)}))
+                want_l[what] = None if (raw is None or exp[what] is None) else S.logical(cmd.type, se, exp[what])
+            for vlabel, ust in stat_views:
+                for what, raw in (("min", raw_min), ("max", raw_max)):
+                    ul = ust[what].get(name)
+                    if ul is None or (len(ul) == 1 and ul[0] is None and nrg != 1):
+                        continue                 # api.statistics collapses a column to [None] when any row group lacks the value
+                    if len(ul) != nrg:
+                        if gi == 0:
+                            fails.append(({**cls0, "component": "statistics", "what": "user-shape"},
+                                          {**info, "detail": "%s: %s[%r] has %d entries for %d row groups" % (vlabel, what, name, len(ul), nrg)}))
+                        continue
+                    u = S.user_canon(ul[gi])
+                    want = want_l[what]
+                    if raw is not None and exp[what] is not None and not S.same_logical(u, want):
+                        fails.append(({**cls0, "component": "statistics", "what": "user-" + what},
+                                      {**info, "detail": "%s: %s = %r (%r), stored chunk's %s is %r" % (vlabel, what, ul[gi], u, what, want)}))
+                    if raw is None and u is not None:
+                        fails.append(({**cls0, "component": "statistics", "what": "user-" + what + "-invented"},
+                                      {**info, "detail": "%s: %s = %r but the chunk carries none" % (vlabel, what, ul[gi])}))
+                un = ust["null_count"].get(name)
+                if un is not None and raw_nulls is not None:
+                    if len(un) != nrg:
+                        if gi == 0 and not (len(un) == 1 and un[0] is None):
+                            fails.append(({**cls0, "component": "statistics", "what": "user-shape"},
+                                          {**info, "detail": "%s: null_count[%r] has %d entries for %d row groups" % (vlabel, name, len(un), nrg)}))
+                    elif un[gi] != exp_nulls:
+                        fails.append(({**cls0, "component": "statistics", "what": "user-null_count"},
+                                      {**info, "detail": "%s: null_count = %r, stored chunk has %d" % (vlabel, un[gi], exp_nulls)}))
             percol.setdefault(name, []).append({"ord": ordsx, "key": key, "ordv": ordv, "raw_min": raw_min, "raw_max": raw_max,
-                                                "ptype": cmd.type, "cls": cls0})
+                                                "ptype": cmd.type, "cls": cls0, "want": want_l})
             # ---------------- ties ----------------
             if pq is None:
                 continue
@@ -408,44 +443,102 @@ def examine(case, path, pq=None, ctx=None):
             ctx.count("chunk.ordering", ordsx[0] + (str(ordsx[1]) if len(ordsx) > 1 else ""))
             ctx.count("chunk.pages", min(len(pages), 5))
             ctx.count("chunk.stats", "minmax" if raw_min is not None else "null_count only")
-    # ---------------- sorted_partitioned_columns ----------------
-    for name, lst in percol.items():
-        listed = name in sorted_real
-        if listed:
-            hi = None
-            bad = None
-            for i, g in enumerate(lst):
-                if not g["ordv"]:
-                    continue
-                ks = [g["key"](v) for v in g["ordv"]]
-                if hi is not None and not hi < min(ks):
-                    bad = i
-                    break
-                hi = max(ks) if hi is None else max(hi, max(ks))
-            if bad is not None:
-                fails.append(({**lst[0]["cls"], "component": "sorted_partitioned_columns", "what": "not-strictly-increasing"},
-                              {"col": name, "rg": bad, "detail": "column reported sorted, but row group %d holds a value <= a value of an earlier row group" % bad}))
-        if pq is not None:
-            tname = S.PTYPE_NAME[lst[0]["ptype"]]
-            mins, maxs, okdec = [], [], True
-            for g in lst:
-                for raw, acc in ((g["raw_min"], mins), (g["raw_max"], maxs)):
-                    if raw is None:
-                        acc.append([])
-                    else:
-                        d = pq.call("dec_stat", tname, S_bytes(raw))
-                        okdec = okdec and bool(d)
-                        acc.append([d[0]] if d else [])
-            if okdec and sorted_err is None:
-                r = pq.call("sorted_col", lst[0]["ord"], mins, maxs)
-                ctx.correspondence("sorted_col ~ api.sorted_partitioned_columns", {"col": name, "kind": specs[name]["kind"], "opts": o,
-                                                                                    "nrg": len(lst), "n": case["n"]}, r, int(listed))
-                ctx.count("sorted.listed", int(listed))
+    # ---------------- sorted_partitioned_columns: every call of the sequence ----------------
+    for v in sorted_views:
+        sub = list(range(nrg)) if v["idx"] is None else list(v["idx"])
+        for name, lst in percol.items():
+            listed = name in v["res"]
+            if listed:
+                hi = None
+                bad = None
+                for i in sub:
+                    g = lst[i]
+                    if not g["ordv"]:
+                        continue
+                    ks = [g["key"](x) for x in g["ordv"]]
+                    if hi is not None and not hi < min(ks):
+                        bad = i
+                        break
+                    hi = max(ks) if hi is None else max(hi, max(ks))
+                if bad is not None:
+                    fails.append(({**lst[0]["cls"], "component": "sorted_partitioned_columns", "what": "not-strictly-increasing"},
+                                  {"col": name, "rg": bad, "detail": "%s: column reported sorted, but row group %d holds a value <= a value of an earlier "
+                                                                     "selected row group (selected: %s)" % (v["label"], bad, sub)}))
+                for what in ("min", "max"):
+                    got = v["res"][name].get(what)
+                    exp_l = [lst[i]["want"][what] for i in sub]
+                    if got is None or len(got) != len(sub) or not all(S.same_logical(S.user_canon(x), w) for x, w in zip(got, exp_l)):
+                        fails.append(({**lst[0]["cls"], "component": "sorted_partitioned_columns", "what": "bounds"},
+                                      {"col": name, "rg": None, "detail": "%s: %s of %r = %r, the stored chunks of row groups %s have %r" % (
+                                          v["label"], what, name, got, sub, exp_l)}))
+            if pq is not None:
+                tname = S.PTYPE_NAME[lst[0]["ptype"]]
+                mins, maxs, okdec = [], [], True
+                for i in sub:
+                    g = lst[i]
+                    for raw, acc in ((g["raw_min"], mins), (g["raw_max"], maxs)):
+                        if raw is None:
+                            acc.append([])
+                        else:
+                            d = pq.call("dec_stat", tname, S_bytes(raw))
+                            okdec = okdec and bool(d)
+                            acc.append([d[0]] if d else [])
+                if okdec and v["err"] is None:
+                    r = pq.call("sorted_col", lst[0]["ord"], mins, maxs)
+                    ctx.correspondence("sorted_col ~ api.sorted_partitioned_columns", {"col": name, "kind": specs[name]["kind"], "opts": o, "call": v["label"],
+                                                                                        "selected": sub, "nrg": len(lst), "n": case["n"]}, r, int(listed))
+                    ctx.count("sorted.listed", int(listed))
+    unf = [v for v in sorted_views if v["idx"] is None]
+    if len(unf) == 2:
+        ca = {k: {w: [S.user_canon(x) for x in d[w]] for w in ("min", "max")} for k, d in unf[0]["res"].items()}
+        cb = {k: {w: [S.user_canon(x) for x in d[w]] for w in ("min", "max")} for k, d in unf[1]["res"].items()}
+        if ca != cb:
+            fails.append(({"kind": "any", "categorical": False, "v2": bool(o.get("v2")), "multipage": False, "ptype": "any",
+                           "component": "sorted_partitioned_columns", "what": "changed-by-an-earlier-call"},
+                          {"col": None, "rg": None, "detail": "sorted_partitioned_columns(pf) before a filtered call lists %s, after it %s" % (sorted(ca), sorted(cb))}))
+    if len(stat_views) == 2:
+        canon = lambda st: {w: {k: [S.user_canon(x) if w != "null_count" else x for x in lst_] for k, lst_ in st[w].items()} for w in ("min", "max", "null_count")}
+        if canon(stat_views[0][1]) != canon(stat_views[1][1]):
+            fails.append(({"kind": "any", "categorical": False, "v2": bool(o.get("v2")), "multipage": False, "ptype": "any",
+                           "component": "statistics", "what": "changed-by-an-earlier-call"},
+                          {"col": None, "rg": None, "detail": "ParquetFile.statistics differs before/after sorted_partitioned_columns(pf, filters=%r)" % (filt,)}))
     return fails
 
 
 def S_bytes(x):
     return x.encode("utf-8") if isinstance(x, str) else bytes(x)
+
+
+def _pick_filter(path):
+    """-> (filters, indices of the row groups fastparquet's own row-group filter keeps) for a numeric column such that
+    some but not all row groups are kept; decided on a SEPARATE handle so that the handle under test is untouched"""
+    import numpy as np
+    from fastparquet import ParquetFile, api
+    try:
+        aux = ParquetFile(path)
+        nrg = len(aux.row_groups)
+        if nrg < 2:
+            return None, None
+        st = aux.statistics
+        for c in aux.columns:
+            mx, mn = st["max"].get(c), st["min"].get(c)
+            if not mx or not mn or len(mx) != nrg or len(mn) != nrg or any(x is None for x in list(mx) + list(mn)):
+                continue
+            if isinstance(mx[0], (bool, np.bool_)) or not isinstance(mx[0], (int, float, np.integer, np.floating)):
+                continue
+            for op, val in ((">", mx[0]), ("<", mn[-1]), (">=", mx[-1]), ("<=", mn[0]), ("==", mn[nrg // 2])):
+                if val != val:
+                    continue
+                f = [(c, op, val.item() if hasattr(val, "item") else val)]
+                try:
+                    idx = api.filter_row_groups(aux, f, as_idx=True)
+                except Exception:       # noqa
+                    continue
+                if 0 < len(idx) < nrg:
+                    return f, [int(i) for i in idx]
+    except Exception:       # noqa
+        pass
+    return None, None
 
 
 def run(ctx):
